@@ -18,6 +18,9 @@ def build(tier):
                                  fixp=True, timeout=400 if quick else 2400, note=" (every toctree entry has a target, every page is reachable)"))
     # index titles name the input directory itself, also when another directory was documented before with the same settings object
     obs.append(trees.tree_ob('C14 titles', 'S2q' if quick else 'S2', 'hist', dict(base, recursive=True, auto_ex=False, sep2=False), fixexcl=True, fixrev=True, timeout=400 if quick else 2400))
+    # the input path is a symbolic link to the tree: index titles and the default prefix name the path as given
+    obs.append(trees.tree_ob("C14 titles", "S2q" if quick else "S2", "link", dict(base, recursive=True, auto_ex=False, sep2=False), fixrev=True, fixexcl=True,
+                             timeout=400 if quick else 2400, note=" (input path is a symbolic link to the tree)"))
     # known finding D15 (kept visible): a module named index.cmake and its directory's index.rst are written to one path
     o = trees.tree_ob("C14 index.cmake next to the directory index", "S7", "tree", dict(base, recursive=False, auto_ex=False, has_prefix=False, sep2=False),
                       fixrev=True, fixexcl=True, timeout=400 if quick else 2400, note=" (known finding D15 expected)")
